@@ -662,7 +662,7 @@ def execute(case, focus=None):
         run.probe("engine_" + case["peer"]["engine"])
         _check_census(run, world, lay, exp_nodes, exp_losses, where)
         dumped = dump_layout(lay)
-        _check_geometry(run, world, lay, dumped, where)
+        _check_geometry(run, world, lay, dumped, where, orient)
         if (orient, okey) in layouts:
             run.probe("computed_twice")
             run.nontrivial = True
@@ -751,7 +751,7 @@ def _check_census(run, world, lay, exp_nodes, exp_losses, where):
                       f"expected {exp_transfers}")
 
 
-def _check_geometry(run, world, lay, dumped, where):
+def _check_geometry(run, world, lay, dumped, where, orient):
     run.check(finite(dumped), ("C14",), "C14.non-finite", f"{where}: non-finite coordinate")
     for sp, sl in lay.items():
         if not sp.is_leaf():
@@ -761,6 +761,21 @@ def _check_geometry(run, world, lay, dumped, where):
             run.check(inside(a, tuple(sl.rect)) and inside(b, tuple(sl.rect)), ("C14",),
                       "C14.child-outside-parent",
                       lambda: f"{where}: child box {a} / {b} outside parent {tuple(sl.rect)}")
+    # "placed in the species it is mapped to", geometrically: the trunk of a species contains
+    # its branching nodes (the layout's own documented invariant); speciations and loss
+    # markers sit in the fork below it, so containment is demanded across the trunk only
+    vertical = orient == "V"
+    for sp, sl in lay.items():
+        t = sl.trunk
+        lo, hi = (t.x, t.x + t.w) if vertical else (t.y, t.y + t.h)
+        for g, b in sl.branches.items():
+            r = b.rect
+            a0, a1 = (r.x, r.x + r.w) if vertical else (r.y, r.y + r.h)
+            run.check(a0 >= lo - 1e-6 and a1 <= hi + 1e-6, ("C13",),
+                      "C13.node-box-outside-species-trunk",
+                      lambda: f"{where}: the box of a {b.kind.name} node spans [{a0}, {a1}] across "
+                              f"the trunk of the species it belongs to, which spans [{lo}, {hi}]: "
+                              f"it is laid out partly outside its species")
     trunks = [(sp.name, tuple(sl.trunk)) for sp, sl in lay.items()
               if sl.trunk.w > 0 and sl.trunk.h > 0]
     for i in range(len(trunks)):
